@@ -1,3 +1,3 @@
 import MpfVerif.DriverLoop
-/-! Driver of the C20 model (stub until the model exists): answers bad-op to everything. -/
-def main : IO UInt32 := MpfVerif.runDriver (fun (s : Unit) _ => (s, "bad-op")) ()
+import MpfVerif.Model.Credits
+def main : IO UInt32 := MpfVerif.runDriver MpfVerif.Credits.driverStep MpfVerif.Credits.driverInit
